@@ -108,14 +108,17 @@ class Tt2Sim(SimBase):
     def execute(self, cmd):
         if self.sector_pending:
             # second packet of SECTOR SELECT: passive ack (no answer) when
-            # the sector exists, NAK otherwise
+            # the sector exists, NAK otherwise.  The tag waits for it for 1 ms
+            # only: any other command arriving later finds the tag back in
+            # its normal state, still in the old sector.
             self.sector_pending = False
-            sector = cmd[0]
-            if len(cmd) == 4 and sector * 1024 < len(self.mem):
-                self.sector = sector
-                self.log.append(("sector", sector))
-                raise nfc.clf.TimeoutError("passive ack")
-            return self.nak()
+            if len(cmd) == 4:
+                sector = cmd[0]
+                if sector * 1024 < len(self.mem):
+                    self.sector = sector
+                    self.log.append(("sector", sector))
+                    raise nfc.clf.TimeoutError("passive ack")
+                return self.nak()
         op = cmd[0]
         if op == 0x30 and len(cmd) == 2:
             addr = self.sector * 1024 + cmd[1] * 4
